@@ -23,6 +23,7 @@ type callee struct {
 	pkg      *types.Package
 	args     []ssa.Value // receiver first
 	bindings map[string]ssa.Value
+	invoke   *ssa.CallCommon
 }
 
 func ifaceKey(t types.Type, method string) string {
@@ -32,6 +33,7 @@ func ifaceKey(t types.Type, method string) string {
 func (g *Gen) resolveCallee(c *ssa.CallCommon) *callee {
 	ce := &callee{sig: c.Signature(), pkg: g.fn.Pkg.Pkg}
 	if c.IsInvoke() {
+		ce.invoke = c
 		ce.key = ifaceKey(c.Value.Type(), c.Method.Name())
 		ce.args = append([]ssa.Value{c.Value}, c.Args...)
 		if _, ok := g.DB.Funcs[ce.key]; !ok {
@@ -109,6 +111,12 @@ func (g *Gen) resolveCallee(c *ssa.CallCommon) *callee {
 // calleeEnv builds the contract environment of a call: parameters bound to argument terms.
 func (g *Gen) calleeEnv(ce *callee, argTerm func(v ssa.Value) string, pre *State) *SpecEnv {
 	env := &SpecEnv{g: g, vars: map[string]SVal{}, st: pre, old: pre, pkg: ce.pkg, alloc0: pre.Alloc}
+	if strings.HasPrefix(ce.key, "C.") {
+		// the enumerators of the C headers (VALID, INVALID, ...) are visible in the contracts of C functions
+		for n, v := range g.P.CEnums {
+			env.vars[n] = SVal{S: g.M.IntLit(big.NewInt(v), typInt), T: typInt, Sort: g.M.IX(), Untyped: true}
+		}
+	}
 	if strings.Contains(ce.key, "#") {
 		// callback contracts may mention the parameters of the enclosing function
 		for k, v := range g.baseEnv().vars {
@@ -244,13 +252,22 @@ func (g *Gen) applyContract(ce *callee, pos token.Pos) []string {
 		}
 	}
 	if spec != nil {
-		for _, c := range spec.Ensures {
+		for _, c := range append(append([]Clause{}, spec.Ensures...), spec.Assumed...) {
+			if c.COnly && !g.isC {
+				continue
+			}
 			s, err := envPost.EvalBool(c.Expr)
 			if err != nil {
 				specFail("%s: ensures of %s: %v", c.Pos, ce.key, err)
 			}
 			g.assumePC(s)
 		}
+		if len(spec.Assumed) > 0 {
+			g.Warnings = append(g.Warnings, fmt.Sprintf("assumed (unverified) ghost postcondition of %s used", ce.key))
+		}
+	}
+	if ce.invoke != nil {
+		g.dispatchRefine(ce, pre, post, results, pos)
 	}
 	if ce.key == "fmt.Errorf" && len(results) == 1 {
 		g.errorfClasses(ce, results[0], pre)
@@ -718,5 +735,99 @@ func (g *Gen) errorfClasses(ce *callee, r string, pre *State) {
 			alts = append(alts, app("errclass", elem, c))
 		}
 		g.assumePC(sEq(app("errclass", r, c), sOr(alts...)))
+	}
+}
+
+
+// dispatchRefine: after an interface method call, the contracts of the module's own implementations apply
+// whenever the dynamic type of the receiver is that implementation (requires are checked, ensures assumed,
+// both under the condition dyn(receiver) == T).
+func (g *Gen) dispatchRefine(ce *callee, pre, post *State, results []string, pos token.Pos) {
+	c := ce.invoke
+	recv := g.val(c.Value)
+	it, ok := c.Value.Type().Underlying().(*types.Interface)
+	if !ok {
+		return
+	}
+	for _, sp := range g.P.SPkgs {
+		for _, m := range sp.Members {
+			tm, ok := m.(*ssa.Type)
+			if !ok {
+				continue
+			}
+			for _, T := range []types.Type{tm.Type(), types.NewPointer(tm.Type())} {
+				if _, isIface := T.Underlying().(*types.Interface); isIface || !types.Implements(T, it) {
+					continue
+				}
+				sel := g.P.SSA.MethodSets.MethodSet(T).Lookup(c.Method.Pkg(), c.Method.Name())
+				if sel == nil {
+					continue
+				}
+				fn := g.P.SSA.MethodValue(sel)
+				if fn == nil || fn.Synthetic != "" {
+					continue
+				}
+				spec := g.DB.Funcs[FuncKey(fn)]
+				if spec == nil || len(fn.Params) != len(c.Args)+1 {
+					continue
+				}
+				if _, isPtr := T.(*types.Pointer); !isPtr {
+					continue // value receivers live in a box: not needed for the module's key and hasher types
+				}
+				g.UsedSpecs[FuncKey(fn)] = true
+				cond := sEq(app("if.dyn", recv), fmt.Sprint(g.typeID(T)))
+				mk := func(st, old *State) *SpecEnv {
+					env := &SpecEnv{g: g, vars: map[string]SVal{}, st: st, old: old, pkg: fn.Pkg.Pkg, alloc0: pre.Alloc}
+					self := SVal{S: app("if.val", recv), T: T, Sort: "Ptr"}
+					env.vars[fn.Params[0].Name()] = self
+					env.vars["self"] = self
+					for i, a := range c.Args {
+						v := SVal{S: g.val(a), T: a.Type(), Sort: g.sortOf(a.Type())}
+						env.vars[fn.Params[i+1].Name()] = v
+						env.vars[fmt.Sprintf("arg%d", i)] = v
+					}
+					return env
+				}
+				envPre := mk(pre, pre)
+				samePkg := fn.Pkg == g.fn.Pkg
+				if n, ok := c.Value.Type().(*types.Named); ok && n.Obj().Pkg() != nil && n.Obj().Pkg() != fn.Pkg.Pkg {
+					// an interface of another package (sha3.ShakeHash, io.Writer): its contract is what the call relies on;
+					// what an implementation of this package adds is only available where its own precondition holds
+					samePkg = false
+				}
+				for _, cl := range spec.Requires {
+					s, err := envPre.EvalBool(cl.Expr)
+					if err != nil {
+						specFail("%s: requires of %s: %v", cl.Pos, FuncKey(fn), err)
+					}
+					if samePkg {
+						g.oblige("requires", shortKey(FuncKey(fn))+"."+labelOr(cl.Label, cl.Src), pos, sImp(cond, s))
+					} else {
+						// representation invariants of another package's type: not the caller's to establish;
+						// the implementation's postconditions are then only available where they hold
+						cond = sAnd(cond, s)
+					}
+				}
+				envPost := mk(post, pre)
+				rs := fn.Signature.Results()
+				for i := 0; i < rs.Len() && i < len(results); i++ {
+					v := SVal{S: results[i], T: rs.At(i).Type(), Sort: g.sortOf(rs.At(i).Type())}
+					envPost.vars[fmt.Sprintf("result%d", i)] = v
+					if i == 0 {
+						envPost.vars["result"] = v
+					}
+					if n := rs.At(i).Name(); n != "" && n != "_" {
+						envPost.vars[n] = v
+					}
+				}
+				for _, cl := range append(append([]Clause{}, spec.Ensures...), spec.Assumed...) {
+					s, err := envPost.EvalBool(cl.Expr)
+					if err != nil {
+						specFail("%s: ensures of %s: %v", cl.Pos, FuncKey(fn), err)
+					}
+					g.assumePC(sImp(cond, s))
+				}
+			}
+		}
 	}
 }
